@@ -16,7 +16,7 @@ RULE = ("Generated: Circle, Ellipse (a<b, a=b, a>b, any centre), ConvexPolygon (
         "1..500: uniform in [-4pi,4pi], exact vertex directions, multiples of pi/4, given as float64 arrays, int arrays or lists. "
         "Oracle: the point centre + d(cos,sin) must lie on the boundary: closed form for circle/ellipse, ray/edge intersection "
         "from the exact centroid for polygons, bisection on the exact distance to the core for spheropolygons (tolerance 1e-9*size); "
-        "2pi-periodicity; finiteness. Non-trivial: irregular core, or theta outside [0,2pi), or theta exactly at a vertex/axis, or "
+        "2pi-periodicity; finiteness. Non-trivial: irregular core, or theta outside [0,2pi), or theta exactly at (or within 5e-324..1e-9 of) a vertex/axis direction, or "
         "axis-aligned edges.")
 ASSUMPTIONS = ["tolerance 1e-9*size on the radial distance (1e-7 within 1e-6 rad of a vertex direction of a spheropolygon arc/edge junction is not needed)"]
 
@@ -25,6 +25,9 @@ ASSUMPTIONS = ["tolerance 1e-9*size on the radial distance (1e-7 within 1e-6 rad
 def _angles(draw):
     n = draw(st.sampled_from([1, 2, 7, 40, 200, 500]))
     return {"n": n, "nz": draw(noise(2 * n)), "container": draw(st.sampled_from(["float64", "float64", "float64", "int64"]))}
+
+
+_HAIR = [0.0, 0.0, 0.0, 5e-324, -5e-324, 1e-300, -1e-300, 1e-17, -1e-17, 2e-16, -2e-16, 1e-12, -1e-12, 1e-9, -1e-9]
 
 
 def build_angles(ad, vertex_dirs):
@@ -37,6 +40,9 @@ def build_angles(ad, vertex_dirs):
             th[i] = vertex_dirs[int(u[i, 0] * len(vertex_dirs)) % len(vertex_dirs)] + 2 * math.pi * (int(u[i, 0] * 7) % 3 - 1)
         elif m < 0.3:
             th[i] = (int(u[i, 0] * 33) - 16) * math.pi / 4
+        if m < 0.3:
+            # ... and angles a hair's breadth away from those (a tiny negative angle reduces to exactly 2 pi mod 2 pi)
+            th[i] += _HAIR[int(u[i, 0] * 9973) % len(_HAIR)]
     special = int(np.sum(u[:, 1] < 0.3))
     if ad["container"] == "int64":
         th = np.round(th).astype(np.int64)
